@@ -174,6 +174,11 @@ def tasks(tier):
         for lo in range(0, len(d2), 16):
             out.append({"kind": "expr", "depth": 2, "style": "symbol", "lo": lo, "hi": min(len(d2), lo + 16), "provider": provider,
                         "vkind": "int" if provider == "async" else "bool", "quick": quick})
+    # how the guarded transition is declared: a.to(b, ...), b.from_(a, ...), b.from_.any(...) (copied per source state)
+    k = 0
+    for t in out:
+        t["attach"] = ["to", "any", "from"][k % 3]
+        k += 1
     out.append({"kind": "reject"})
     out.append({"kind": "paren-pairs"})
     return out
@@ -187,6 +192,7 @@ BOUNDS = {
     "quick": "all depth-1 expressions over leaves {alpha, vault, notify, v1, True, 0}: leaf, not, and, or, the six comparisons, four chained "
     "comparisons; spelled with word operators, symbol operators, and symbol operators without optional blanks; 42 depth-2 trees over three names "
     "(both associations of and/or, not over compounds, comparisons under and/or) in word and tight spelling; each used as cond, as unless, and as an "
+    "(the guarded transition declared as a.to(b, ...), b.from_(a, ...) or b.from_.any(...), by task) "
     "element of cond=[plain, expr]; comparisons over and/or/not operands with int values; names provided by machine methods (reads logged; values symbolic ints in [-2,2] / bools), and - depth 2, "
     "symbol spelling - by plain attributes, properties, the model, coroutine methods (plain names only); 5 pairs of expressions differing only in parentheses used together in one cond list; 27 strings that must be rejected at instantiation, alone and next to valid guard entries.",
     "thorough": "leaves also False and 1, word operators with tight comparisons, int values at depth 2.",
@@ -298,7 +304,13 @@ def run(ctx, params):
             kw["unless"] = text
         else:
             kw["cond"] = ["plain", text]
-        attrs["go"] = attrs["a"].to(attrs["b"], **kw)
+        attach = params.get("attach", "to")
+        if attach == "any":
+            attrs["go"] = attrs["b"].from_.any(**kw)
+        elif attach == "from":
+            attrs["go"] = attrs["b"].from_(attrs["a"], **kw)
+        else:
+            attrs["go"] = attrs["a"].to(attrs["b"], **kw)
         attrs["back"] = attrs["b"].to(attrs["a"])
         holder = {}
         for n in NAMES + ["plain"]:
